@@ -183,24 +183,25 @@ Definition to_byte_stream (s : list N) : res (list N) :=
   s2b_loop (S (length s)) s (Zlen s) 0.
 
 (* ------------------------------------------------------------------ avc.GetNalusFromSample *)
-(* pinned text: uint32 position, `for pos < uint32(length-4)` *)
-Fixpoint gnfs_loop (fuel : nat) (s : list N) (pos : Z) (acc : list (list N)) : res (list (list N)) :=
+(* current text (after `fix: avc.GetNalusFromSample compares the NALU length without 32-bit wrap`):
+   int position, `for pos < length-4`, error when the length field exceeds the remaining bytes *)
+Fixpoint gnfs_loop (fuel : nat) (s : list N) (length pos : Z) (acc : list (list N)) : res (list (list N)) :=
   match fuel with
   | O => OutOfFuel
   | S f =>
-      if pos <? u32z (Zlen s - 4) then
-        do lf <- slice s pos (u32z (pos + 4));
+      if pos <? length - 4 then
+        do lf <- slice s pos (pos + 4);
         let nl := be32_dec lf in
-        let pos1 := u32z (pos + 4) in
-        if u32z (pos1 + nl) >? Zlen s then Err
+        let pos1 := pos + 4 in
+        if nl >? length - pos1 then Err
         else
-          do nal <- slice s pos1 (u32z (pos1 + nl));
-          gnfs_loop f s (u32z (pos1 + nl)) (nal :: acc)
+          do nal <- slice s pos1 (pos1 + nl);
+          gnfs_loop f s length (pos1 + nl) (nal :: acc)
       else Ok (rev acc)
   end.
 
 Definition get_nalus_from_sample (s : list N) : res (list (list N)) :=
-  if Zlen s <? 4 then Err else gnfs_loop (S (length s)) s 0 [].
+  if Zlen s <? 4 then Err else gnfs_loop (S (length s)) s (Zlen s) 0 [].
 
 (* ------------------------------------------------------------------ length-field walkers (avc.go / hevc.go) *)
 (* FindNaluTypes / FindNaluTypesUpToFirstVideoNALU / ContainsNaluType share one loop shape:
